@@ -68,6 +68,9 @@ struct Task {
   int noyield = 0;
   bool started = false;
   int prio = 0;
+  // Thread-local storage of this simulated thread (library built with -femulated-tls; see __wrap___emutls_get_address).
+  std::vector<std::pair<void*, void*>> tls;                       // emutls control object -> this task's instance
+  std::vector<std::pair<void (*)(void*), void*>> tls_dtors;      // registered through __cxa_thread_atexit
 };
 
 struct Sched {
@@ -132,6 +135,16 @@ void trampoline(unsigned lo, unsigned hi) {
   to_main(t, false);
   tsan_ignore_begin();
   (*t->body)();
+  tsan_ignore_end();
+  // "Thread exit": destructors of the thread's thread_local objects run on the thread, visible to TSan.
+  while (!t->tls_dtors.empty()) {
+    auto d = t->tls_dtors.back();
+    t->tls_dtors.pop_back();
+    d.first(d.second);
+  }
+  tsan_ignore_begin();
+  for (auto& b : t->tls) free(b.second);
+  t->tls.clear();
   tsan_ignore_end();
   t->st = T_DONE;
   t->pending = Y_END;
@@ -331,6 +344,24 @@ SchedResult run_tasks(const std::vector<std::function<void()>>& bodies, const Sc
 
 // Exposed to the wraps below.
 namespace detail {
+struct EmuTlsControl { size_t size, align; union { uintptr_t index; void* address; } object; void* templ; };
+void* task_tls(void* control) {
+  Task* t = g->tasks[g->cur];
+  for (auto& b : t->tls) if (b.first == control) return b.second;
+  HarnessScope hs;
+  const EmuTlsControl* c = static_cast<const EmuTlsControl*>(control);
+  size_t al = c->align < 16 ? 16 : c->align;
+  size_t sz = (c->size + al - 1) / al * al;
+  void* p = aligned_alloc(al, sz ? sz : al);
+  if (c->templ) memcpy(p, c->templ, c->size); else memset(p, 0, c->size);
+  t->tls.emplace_back(control, p);
+  g->res->tls_blocks++;
+  return p;
+}
+void task_tls_atexit(void (*fn)(void*), void* obj) {
+  HarnessScope hs;
+  g->tasks[g->cur]->tls_dtors.emplace_back(fn, obj);
+}
 void mutex_lock_enter(const void* m, bool recursive) {
   Task* t = g->tasks[g->cur];
   yield(Y_LOCK);
@@ -506,6 +537,22 @@ pthread_t __real_pthread_self(void);
 pthread_t __wrap_pthread_self(void) {
   if (!sim::in_task()) return __real_pthread_self();
   return static_cast<pthread_t>(0x7f5100001000ULL + static_cast<unsigned long>(sim::cur_task() + 1) * 0x4000ULL);
+}
+// Thread-local storage: the library is compiled with -femulated-tls in the clang builds, so every access to a
+// thread_local goes through __emutls_get_address; inside a task it is served from that task's own instance
+// (initialised from the template like a new thread's), and thread_local destructors run when the task ends.
+// Outside tasks the real thread's storage is used.  (pthread keys are NOT virtualised: the sanitizer runtimes in
+// this very link find their own per-thread state through pthread_getspecific.)
+void* __real___emutls_get_address(void* control);
+void* __wrap___emutls_get_address(void* control) {
+  if (!sim::in_task()) return __real___emutls_get_address(control);
+  return sim::detail::task_tls(control);
+}
+int __real___cxa_thread_atexit(void (*fn)(void*), void* obj, void* dso);
+int __wrap___cxa_thread_atexit(void (*fn)(void*), void* obj, void* dso) {
+  if (!sim::in_task()) return __real___cxa_thread_atexit(fn, obj, dso);
+  sim::detail::task_tls_atexit(fn, obj);
+  return 0;
 }
 int __wrap_pthread_once(pthread_once_t* once, void (*fn)(void)) {
   sim::detail::guard_enter();
